@@ -65,6 +65,9 @@ impl EventParser {
                     let param_name = pat_ident.ident.to_string();
                     let param_type = self.extract_type_name(&pat_type.ty);
                     symbols.insert(param_name, param_type);
+                } else {
+                    // (a, b): (A, B) and the like: bound names without a type of their own
+                    self.bind_pattern(&pat_type.pat, symbols);
                 }
             }
         }
@@ -128,8 +131,10 @@ impl EventParser {
         events: &mut Vec<EventInfo>,
         symbols: &mut SymbolTable,
     ) {
+        // A block is a scope: what it binds is gone at its end
+        let mut scope = symbols.clone();
         for stmt in stmts {
-            self.extract_events_from_stmt(stmt, file_path, type_resolver, events, symbols);
+            self.extract_events_from_stmt(stmt, file_path, type_resolver, events, &mut scope);
         }
     }
 
@@ -147,9 +152,7 @@ impl EventParser {
                 self.extract_events_from_expr(expr, file_path, type_resolver, events, symbols);
             }
             syn::Stmt::Local(local) => {
-                // Track let bindings with explicit types
-                self.extract_local_binding(local, symbols);
-
+                // The initialiser still sees the bindings before this `let`
                 if let Some(init) = &local.init {
                     self.extract_events_from_expr(
                         &init.expr,
@@ -169,35 +172,97 @@ impl EventParser {
                         );
                     }
                 }
+
+                // Track let bindings with explicit or inferable types
+                self.extract_local_binding(local, symbols);
             }
+            _ => {}
+        }
+    }
+
+    /// Collect the names a pattern binds
+    fn pattern_bindings(pat: &Pat, names: &mut Vec<String>) {
+        match pat {
+            Pat::Ident(p) => {
+                names.push(p.ident.to_string());
+                if let Some((_, sub)) = &p.subpat {
+                    Self::pattern_bindings(sub, names);
+                }
+            }
+            Pat::Type(p) => Self::pattern_bindings(&p.pat, names),
+            Pat::Reference(p) => Self::pattern_bindings(&p.pat, names),
+            Pat::Paren(p) => Self::pattern_bindings(&p.pat, names),
+            Pat::Tuple(p) => p
+                .elems
+                .iter()
+                .for_each(|e| Self::pattern_bindings(e, names)),
+            Pat::TupleStruct(p) => p
+                .elems
+                .iter()
+                .for_each(|e| Self::pattern_bindings(e, names)),
+            Pat::Slice(p) => p
+                .elems
+                .iter()
+                .for_each(|e| Self::pattern_bindings(e, names)),
+            Pat::Or(p) => p
+                .cases
+                .iter()
+                .for_each(|e| Self::pattern_bindings(e, names)),
+            Pat::Struct(p) => p
+                .fields
+                .iter()
+                .for_each(|f| Self::pattern_bindings(&f.pat, names)),
+            _ => {}
+        }
+    }
+
+    /// A pattern shadows the names it binds: their earlier types no longer apply, and
+    /// nothing says what the new ones are. `name: Type` at the top of the pattern does.
+    fn bind_pattern(&self, pat: &Pat, symbols: &mut SymbolTable) {
+        let mut names = Vec::new();
+        Self::pattern_bindings(pat, &mut names);
+        for name in names {
+            symbols.insert(name, "unknown".to_string());
+        }
+        if let Pat::Type(pat_type) = pat {
+            if let Pat::Ident(pat_ident) = &*pat_type.pat {
+                let var_type = self.extract_type_name(&pat_type.ty);
+                symbols.insert(pat_ident.ident.to_string(), var_type);
+            }
+        }
+    }
+
+    /// The bindings of `if let` / `while let` conditions (also inside `&&` chains)
+    fn bind_let_conditions(&self, cond: &Expr, symbols: &mut SymbolTable) {
+        match cond {
+            Expr::Let(expr_let) => self.bind_pattern(&expr_let.pat, symbols),
+            Expr::Binary(binary) => {
+                self.bind_let_conditions(&binary.left, symbols);
+                self.bind_let_conditions(&binary.right, symbols);
+            }
+            Expr::Paren(paren) => self.bind_let_conditions(&paren.expr, symbols),
             _ => {}
         }
     }
 
     /// Extract variable binding from let statement
     fn extract_local_binding(&self, local: &syn::Local, symbols: &mut SymbolTable) {
-        // Handle let var: Type = ...
-        if let Pat::Ident(pat_ident) = &local.pat {
-            let var_name = pat_ident.ident.to_string();
-
-            // If there's an explicit type annotation, use it
-            if let Some(local_init) = &local.init {
-                // Try to infer type from the initialization expression
-                let inferred_type = self.infer_type_from_init(&local_init.expr, symbols);
-                if inferred_type != "unknown" {
-                    symbols.insert(var_name, inferred_type);
-                }
+        // let var = init: the type is inferred from the initialiser, before the
+        // new binding shadows anything the initialiser mentions
+        let inferred_type = match (&local.pat, &local.init) {
+            (Pat::Ident(_), Some(local_init)) => {
+                self.infer_type_from_init(&local_init.expr, symbols)
             }
-        }
+            _ => "unknown".to_string(),
+        };
 
-        // Handle let var: Type (with type annotation via local.ty if it were available)
-        // syn's Local doesn't have direct type annotation in newer versions,
-        // but we can handle patterns with type annotations
-        if let Pat::Type(pat_type) = &local.pat {
-            if let Pat::Ident(pat_ident) = &*pat_type.pat {
-                let var_name = pat_ident.ident.to_string();
-                let var_type = self.extract_type_name(&pat_type.ty);
-                symbols.insert(var_name, var_type);
+        // let var: Type = ... is handled by the pattern itself; every other name the
+        // pattern binds is shadowed and has no known type
+        self.bind_pattern(&local.pat, symbols);
+
+        if let Pat::Ident(pat_ident) = &local.pat {
+            if inferred_type != "unknown" {
+                symbols.insert(pat_ident.ident.to_string(), inferred_type);
             }
         }
     }
@@ -268,12 +333,15 @@ impl EventParser {
                     events,
                     symbols,
                 );
+                // `if let PAT = ..` binds for the then-branch only
+                let mut then_scope = symbols.clone();
+                self.bind_let_conditions(&expr_if.cond, &mut then_scope);
                 self.extract_events_from_block(
                     &expr_if.then_branch.stmts,
                     file_path,
                     type_resolver,
                     events,
-                    symbols,
+                    &mut then_scope,
                 );
                 if let Some((_, else_branch)) = &expr_if.else_branch {
                     self.extract_events_from_expr(
@@ -294,13 +362,16 @@ impl EventParser {
                     symbols,
                 );
                 for arm in &expr_match.arms {
+                    // The arm's pattern binds for its guard and body
+                    let mut arm_scope = symbols.clone();
+                    self.bind_pattern(&arm.pat, &mut arm_scope);
                     if let Some((_, guard)) = &arm.guard {
                         self.extract_events_from_expr(
                             guard,
                             file_path,
                             type_resolver,
                             events,
-                            symbols,
+                            &mut arm_scope,
                         );
                     }
                     self.extract_events_from_expr(
@@ -308,7 +379,7 @@ impl EventParser {
                         file_path,
                         type_resolver,
                         events,
-                        symbols,
+                        &mut arm_scope,
                     );
                 }
             }
@@ -329,12 +400,14 @@ impl EventParser {
                     events,
                     symbols,
                 );
+                let mut body_scope = symbols.clone();
+                self.bind_let_conditions(&expr_while.cond, &mut body_scope);
                 self.extract_events_from_block(
                     &expr_while.body.stmts,
                     file_path,
                     type_resolver,
                     events,
-                    symbols,
+                    &mut body_scope,
                 );
             }
             Expr::ForLoop(expr_for) => {
@@ -345,12 +418,14 @@ impl EventParser {
                     events,
                     symbols,
                 );
+                let mut body_scope = symbols.clone();
+                self.bind_pattern(&expr_for.pat, &mut body_scope);
                 self.extract_events_from_block(
                     &expr_for.body.stmts,
                     file_path,
                     type_resolver,
                     events,
-                    symbols,
+                    &mut body_scope,
                 );
             }
             Expr::Await(expr_await) => {
@@ -382,6 +457,20 @@ impl EventParser {
                     type_resolver,
                     events,
                     symbols,
+                );
+            }
+            // A closure's parameters bind for its body
+            Expr::Closure(closure) => {
+                let mut body_scope = symbols.clone();
+                for input in &closure.inputs {
+                    self.bind_pattern(input, &mut body_scope);
+                }
+                self.extract_events_from_expr(
+                    &closure.body,
+                    file_path,
+                    type_resolver,
+                    events,
+                    &mut body_scope,
                 );
             }
             // Every other expression that holds expressions: an emit may be the body of a
